@@ -25,7 +25,7 @@ RULE = ("warm/cold differential over recorded call histories: ctor-from-string, 
         "after an option toggle")
 ANCHORS = ['str_to_bitstore', 'tokenparser', 'preprocess_tokens', 'parse_name_length_token', 'parse_single_struct_token',
            'parse_single_token', 'Dtype._new_from_token', 'Dtype._create', 'Options.set_lsb0', 'pack', 'Bits._readlist']
-REQUIRED_OPS = ['ctor', 'fromstring', 'ctor-kw', 'prop-assign', 'pack', 'unpack', 'readlist', 'unpack-dtypes', 'dtype', 'array-dtype', 'toggle', 'mutate-earlier']
+REQUIRED_OPS = ['ctor', 'fromstring', 'ctor-kw', 'prop-assign', 'pack', 'unpack', 'readlist', 'unpack-dtypes', 'combine-mutate', 'dtype-from-dtype', 'dtype', 'array-dtype', 'toggle', 'mutate-earlier']
 MIN_EVALS = {'quick': 2000, 'thorough': 40000}
 PINNED_CACHES = ['str_to_bitstore', '_str_to_bitstore', 'tokenparser', 'preprocess_tokens', 'parse_name_length_token',
                  'parse_single_struct_token', 'parse_single_token', '_new_from_token', '_create']
@@ -99,6 +99,39 @@ def run_call(c, keep=None):
             s = bitstring.ConstBitStream(bin=c['data'])
             r = s.readlist(c['fmt'], **c['kw'])
             return ['ok', jval(r), s.pos]
+        if kind == 'combine-mutate':
+            # a token string combined with an EMPTY mutable object; the result is then changed in place
+            mcls = getattr(bitstring, c['cls'])
+            how = c['how']
+            if how == 'empty+str':
+                t = mcls() + c['s']
+            elif how == 'str+empty':
+                t = c['s'] + mcls()
+            elif how == 'empty.append':
+                t = mcls(); t.append(c['s'])
+            elif how == 'empty.prepend':
+                t = mcls(); t.prepend(c['s'])
+            elif how == 'empty|=':          # zero-length receiver: only the empty string fits, anything else raises
+                t = mcls(); t |= c['s']
+            elif how == 'join':
+                t = mcls().join([c['s']])
+            else:
+                t = mcls(); t += c['s']
+            before = t.bin if len(t) else ''
+            if len(t):
+                t.invert()
+            t.append('0b1')
+            return ['ok', before]
+        if kind == 'dtype-from-dtype':
+            # Dtype(dtype_object, scale=...) must not touch dtype_object (it is the object the caches hand to everybody)
+            d0 = Dtype(c['tok'])
+            try:
+                d1 = Dtype(d0, scale=c['scale'])
+                r1 = [d1.name, d1.length, None if d1.scale is None else float(d1.scale)]
+            except Exception as e:  # noqa: BLE001
+                r1 = 'exc:' + norm_exc(e)
+            d2 = Dtype(c['tok'])
+            return ['ok', [r1, None if d0.scale is None else float(d0.scale), None if d2.scale is None else float(d2.scale)]]
         if kind == 'unpack-dtypes':
             # Dtype objects (with their scales) as items of the format list: what is read depends on the objects given now
             fmt = [Dtype(nm, ln, scale=sc) if sc is not None else Dtype(nm, ln) for nm, ln, sc in c['items']]
@@ -240,7 +273,7 @@ def gen_history(ctx, n):
                          'opts': list(opts)})
             continue
         k = rng.choice(['ctor', 'ctor', 'ctor', 'ctor', 'fromstring', 'pack', 'pack', 'unpack', 'readlist', 'dtype', 'dtype', 'array-dtype', 'array-dtype', 'find',
-                        'ctor-kw', 'ctor-kw', 'prop-assign', 'unpack-dtypes'])
+                        'ctor-kw', 'ctor-kw', 'prop-assign', 'unpack-dtypes', 'combine-mutate', 'dtype-from-dtype'])
         if k in ('ctor', 'fromstring'):
             c = {'kind': k, 'cls': rng.choice(['Bits', 'BitArray', 'ConstBitStream', 'BitStream']), 's': nxt('str', strs)}
             r2 = rng.random()
@@ -248,6 +281,12 @@ def gen_history(ctx, n):
                 c['s'] = rng.choice(HOT_OPTION_SENSITIVE)       # few keys, revisited under different option values
             elif r2 < 0.2:
                 c['s'] = respell(rng, c['s'])
+        elif k == 'combine-mutate':
+            c = {'kind': k, 'cls': rng.choice(['BitArray', 'BitStream']), 's': strs[rng.randrange(12)] if rng.random() < 0.6 else nxt('str', strs),
+                 'how': rng.choice(['empty+str', 'str+empty', 'empty.append', 'empty.prepend', 'empty+=', 'join', 'empty|='])}
+        elif k == 'dtype-from-dtype':
+            c = {'kind': k, 'tok': rng.choice(['uint12', 'uint8', 'int16', 'float32', 'u5', 'e4m3mxfp', 'bfloat', 'uintle16'] + dtoks[:6]),
+                 'scale': rng.choice([2, 8, 0.5, 3, None])}
         elif k == 'unpack-dtypes':
             items = []
             for _ in range(rng.choice([1, 2, 3])):
